@@ -458,9 +458,9 @@ def run_check(pid, tier, replay=None):
             # "... and therefore Blank.SetSource": the Blank histories of Wrap.tla with the monitor gone, under a watchdog
             from . import wrapcheck
             bad, n_sel, wstates = wrapcheck.blank_context_cases(vh, scratch, seed, quick)
-            blank_ctx = {"histories_executed": n_sel, "wrap_states": wstates, "not_returned_after_context_end": len(bad)}
+            blank_ctx = {"histories_executed": n_sel, "wrap_states": wstates, "breaches": len(bad)}
             for detail, case in bad[:10]:
-                rp = C.write_replay(pid, case["id"], {"property": pid, "kind": "wrap", "case": case, "mismatches": [{"kind": "ctx", "detail": detail}]})
+                rp = C.write_replay(pid, case["id"], {"property": pid, "kind": "wrap", "case": case, "mismatches": [{"kind": "ref", "c07": True, "detail": detail}]})
                 violations.append(("Blank history %s: %s" % (case["id"], detail[:200]), rp))
         # 5. code -> spec (b): strict conformance of gated executions with Dials.tla
         by = {}
@@ -513,7 +513,7 @@ def run_replay(pid, vh, scratch, path):
     if obj.get("kind") == "wrap":
         from . import wrapcheck
         res, crashes = wrapcheck.run_cases(vh, scratch, [obj["case"]], workers=1)
-        bad = crashes or [m for r in res for m in (r.get("mismatches") or []) if m["kind"] == "ctx"]
+        bad = crashes or [m for r in res for m in (r.get("mismatches") or []) if m.get("c07")]
         print("replay:", "reproduced" if bad else "not reproduced")
         if bad:
             print("VIOLATION property=%s replay=%s  (reproduced)" % (pid, path))
